@@ -6,7 +6,7 @@
 // set of methods that may block, and the (method, helper) choke points.  This binary only
 // executes them; it decides nothing.  The observers are the Go race detector (sub-commands
 // pairs / multi, built with -race) and the TryLock guard probes (sub-command probe, built
-// with -tags c13guard against a repository that carries fixes/hook-c13-guard-probes.diff).
+// with -tags c13guard against a repository that carries fixes/hook-c13-guard-probes.addonly.diff).
 //
 //	vh-race list                      the components, classes and methods this binary can drive
 //	vh-race pairs  < jobs.ndjson      {"n","comp","class","m1","m2","blocking":[..],"rounds","iters"}
